@@ -188,6 +188,11 @@ def run_verus(gen, lib, modules, rlimit, threads, seed=None, extra=None, timeout
     return cmd, res, diags, p.stderr if res is None else "", wall
 
 
+def frontend_error(vr):
+    """Verus stopped before verification (rustc / VIR error): nothing was verified and no verification error was counted"""
+    return bool(vr.get("encountered-vir-error") or (vr.get("encountered-error") and not vr.get("verified") and not vr.get("errors")))
+
+
 def diag_primary_line(d):
     for sp in d.get("spans", []):
         if sp.get("is_primary") and sp.get("file_name", "").endswith("flounder_v.rs"):
@@ -349,7 +354,7 @@ def main():
             undecided("verus produced no result", err)
         vr = res.get("verification-results", {})
         tries = 0
-        while (vr.get("encountered-vir-error") or (vr.get("encountered-error") and not res.get("times-ms", {}).get("smt"))) and tries < 6:
+        while frontend_error(vr) and tries < 6:
             # A construct Verus cannot ingest. If it sits in a function that carries NO contract (typically new code),
             # hide that body without assuming anything about it and try again: callers then see an arbitrary effect, and
             # a property that depended on it fails at the caller's obligation. A contracted function is never hidden.
@@ -382,7 +387,7 @@ def main():
             if res is None:
                 undecided("verus produced no result", err)
             vr = res.get("verification-results", {})
-        if vr.get("encountered-vir-error") or (vr.get("encountered-error") and not res.get("times-ms", {}).get("smt")):
+        if frontend_error(vr):
             msgs = [d.get("rendered", d.get("message", "")) for d in diags if d.get("level") == "error"]
             frontend_failed = "\n".join(msgs)
             break
@@ -499,6 +504,15 @@ def main():
             pass
         rdir = os.path.join(VERIF, "evidence", "replay")
         os.makedirs(rdir, exist_ok=True)
+        ev = {"property_id": pid, "tier": tier, "seed": seed, "level": "other",
+              "coverage": {"explanation": "Verus could not ingest the current source text (front-end error), so NO obligation was decided deductively in this run. "
+                           "A bounded native stand-in (labelled bounded, never counted as proved) was run instead: %s" % (json.dumps(standin)[:1500] if standin else "none available"),
+                           "obligations": 0, "discharged": 0, "checker_cmd": checker_cmd, "trusted_base": obl.get("trusted_base", []),
+                           "frontend_error": frontend_failed[-2000:], "bounded": [standin] if standin else []},
+              "assumptions": obl.get("assumptions", []), "wall_s": round(time.time() - t_start, 2),
+              "violations": 1 if (standin and standin.get("violation")) else 0}
+        with open(os.path.join(VERIF, "evidence", "%s.json" % pid), "w") as fh:
+            json.dump(ev, fh, indent=1)
         if standin and standin.get("violation"):
             v = standin["violation"]
             rp = os.path.join(rdir, "%s_bounded_standin.json" % pid)
